@@ -46,8 +46,9 @@ def life_stage(ck, tier, props, transform=None, tag="life", coherent_only=False,
     mods, meta = [], []
     for i, v in enumerate(vecs):
         entry, order = entries[i % 3], (i // 3) % 2
-        mods.append((i, lf.life_module(i, v["L"], v["hist"], entry, order)))
-        meta.append({"entry": entry, "order": order})
+        generic = i % 4 == 3          # one field of type G, instantiated with W: default bounds at work in a living program
+        mods.append((i, lf.life_module(i, v["L"], v["hist"], entry, order, generic=generic)))
+        meta.append({"entry": entry, "order": order, "generic": generic})
     if transform:
         mods = transform(mods)
     res, failed = run_modules(mods, tag)
